@@ -4,21 +4,22 @@
 ID=$1; S=${2:-/tmp/seed/$ID}; W=$S/w; O=$S/out_$ID
 export GOFLAGS=-mod=mod GOPROXY=off
 PKG=$(head -3 $O/demo_test.go | grep -oE '[a-z0-9_/]+/[a-z0-9_/]+|`[^`]+`' | head -1 | tr -d '`')
+[ -z "$PKG" ] && PKG=$(head -1 $O/demo_test.go | sed -E "s#^// *##; s# .*##")
 [ -n "$3" ] && PKG=$3
 echo "seed $ID package dir: $PKG"
 cd $W || exit 2
 git checkout -q -- . ; git apply $O/patch.diff || { echo "patch does not apply"; exit 2; }
 go build ./... || { echo "BUILD FAILS with patch"; exit 1; }
 cp $O/demo_test.go $W/$PKG/zz_demo_test.go
-timeout 900 go test -count=1 -run "$(grep -oE '^func (Test[A-Za-z0-9_]+)' $O/demo_test.go | awk '{print $2}' | paste -sd'|')" ./$PKG/ > /tmp/seed_$ID.with.log 2>&1; RW=$?
+timeout 900 go test -count=1 -run "$(grep -oE '^func (Test[A-Za-z0-9_]+)' $O/demo_test.go | awk '{print $2}' | paste -sd'|')" ./$PKG/ > $S/seed_$ID.with.log 2>&1; RW=$?
 git apply -R $O/patch.diff   # (git stash is shared between worktrees of one repository: never use it here)
-timeout 900 go test -count=1 -run "$(grep -oE '^func (Test[A-Za-z0-9_]+)' $O/demo_test.go | awk '{print $2}' | paste -sd'|')" ./$PKG/ > /tmp/seed_$ID.without.log 2>&1; RWO=$?
+timeout 900 go test -count=1 -run "$(grep -oE '^func (Test[A-Za-z0-9_]+)' $O/demo_test.go | awk '{print $2}' | paste -sd'|')" ./$PKG/ > $S/seed_$ID.without.log 2>&1; RWO=$?
 git apply $O/patch.diff
 rm -f $W/$PKG/zz_demo_test.go
-timeout 1500 go test -count=1 ./$PKG/ > /tmp/seed_$ID.pkg.log 2>&1; RP=$?
+timeout 1500 go test -count=1 ${PKGRUN:+-run "$PKGRUN"} ./$PKG/ > $S/seed_$ID.pkg.log 2>&1; RP=$?
 echo "demo with patch exit=$RW (want !=0), without exit=$RWO (want 0), package tests with patch exit=$RP (want 0)"
 if [ $RW -ne 0 ] && [ $RWO -eq 0 ] && [ $RP -eq 0 ]; then
   D=${SEED_NAME:-$ID}; mkdir -p /verif/seeded/$D && cp $O/patch.diff $O/demo_test.go $O/meta.json /verif/seeded/$D/ && echo CONFIRMED
 else
-  echo NOT-CONFIRMED; for f in with without pkg; do echo "-- $f"; tail -n 5 /tmp/seed_$ID.$f.log; done
+  echo NOT-CONFIRMED; for f in with without pkg; do echo "-- $f"; tail -n 5 $S/seed_$ID.$f.log; done
 fi
